@@ -237,6 +237,15 @@ func (fr *Frame) stdlibCall2(in *ssa.Call, callee *ssa.Function, name string, ar
 		return Or(ds...)
 	}
 	goFn := func(n string, args []*Sort, ret *Sort) { p.DeclareFun(n, args, ret) }
+	// what reflection extracts from a Go document value is again a Go document value (never one of
+	// the interpreter's internal values)
+	goClosed := func(v, part *Term) {
+		if sd, ok := p.specs["specGoVal"]; ok && !ex.pure {
+			p.ensureSpec("specGoVal")
+			ex.addFact(Implies(App("specGoVal", sd.Ret, v), App("specGoVal", sd.Ret, part)))
+			p.assumptions["reflect: the elements, fields and pointees of a Go document value are Go document values (specGoVal)"] = true
+		}
+	}
 	switch name {
 	case "encoding/json.Unmarshal":
 		use("json.Unmarshal(data, &x): never panics; err == nil implies x == jsonDecode(data), a JSON value (specJSONVal) resp. a string; its error is not a SyntaxError of this package")
@@ -344,7 +353,17 @@ func (fr *Frame) stdlibCall2(in *ssa.Call, callee *ssa.Function, name string, ar
 		v := rvVal(r)
 		goFn("goElem", []*Sort{SVal}, SVal)
 		goFn("goIsNil", []*Sort{SVal}, SBool)
+		goClosed(v, App("goElem", SVal, v))
+		// Go documents are finite: following pointers ends (no pointer that leads back to itself)
+		goFn("goDepth", []*Sort{SVal}, SInt)
+		ex.addFact(And(Le(IntLit(0), App("goDepth", SInt, App("goElem", SVal, v))), Lt(App("goDepth", SInt, App("goElem", SVal, v)), App("goDepth", SInt, v))))
+		p.assumptions["Go documents are finite: a chain of pointers ends (goDepth decreases along reflect.Value.Elem)"] = true
 		return &GVal{T: App("mkRV", rvS, App("goElem", SVal, v), Not(App("goIsNil", SBool, v)), rvRO(r)), Typ: in.Type()}
+	case "(reflect.Value).CanInterface":
+		use("reflect: CanInterface() panics for the invalid Value; it is false exactly for values obtained through unexported struct fields")
+		r := fr.term(args[0])
+		fr.oblige("safe", "reflect.CanInterface-valid", []string{"C05", "C18"}, rvValid(r), in.Pos())
+		return &GVal{T: Not(rvRO(r)), Typ: in.Type()}
 	case "(reflect.Value).Interface":
 		use("reflect: Interface() panics for the invalid Value and for values obtained through unexported struct fields")
 		r := fr.term(args[0])
@@ -357,9 +376,12 @@ func (fr *Frame) stdlibCall2(in *ssa.Call, callee *ssa.Function, name string, ar
 		v := rvVal(r)
 		goFn("goLen", []*Sort{SVal}, SInt)
 		goFn("goIndex", []*Sort{SVal, SInt}, SVal)
-		ln := Ite(VIs("VArr", v), VLenOf(v), Ite(VIs("VStr", v), App("gs.len", SInt, VStrOf(v)), Ite(VIs("VIntPtrs", v), App("vpn", SInt, v), App("goLen", SInt, v))))
+		// the same term Len() yields (the object case is excluded by the kind condition below)
+		ln := Ite(VIs("VArr", v), VLenOf(v), Ite(VIs("VObj", v), VSizeOf(v), Ite(VIs("VStr", v), App("gs.len", SInt, VStrOf(v)),
+			Ite(VIs("VIntPtrs", v), App("vpn", SInt, v), App("goLen", SInt, v)))))
 		fr.oblige("safe", "reflect.Index-kind-and-range", []string{"C05", "C18"}, And(kindIn(r, 17, 23, 24), Le(IntLit(0), i), Lt(i, ln)), in.Pos())
 		el := Ite(VIs("VArr", v), Select(VArrOf(v), i), App("goIndex", SVal, v, i))
+		goClosed(v, App("goIndex", SVal, v, i))
 		return &GVal{T: App("mkRV", rvS, el, TTrue, rvRO(r)), Typ: in.Type()}
 	case "(reflect.Value).FieldByName":
 		use("reflect: FieldByName panics unless kind is Struct; returns the invalid Value when there is no such field; unexported fields are read-only")
@@ -370,6 +392,7 @@ func (fr *Frame) stdlibCall2(in *ssa.Call, callee *ssa.Function, name string, ar
 		goFn("goField", []*Sort{SVal, SStr}, SVal)
 		goFn("goHasField", []*Sort{SVal, SStr}, SBool)
 		goFn("goFieldUnexported", []*Sort{SVal, SStr}, SBool)
+		goClosed(v, App("goField", SVal, v, n))
 		return &GVal{T: App("mkRV", rvS, App("goField", SVal, v, n), App("goHasField", SBool, v, n), Or(rvRO(r), App("goFieldUnexported", SBool, v, n))), Typ: in.Type()}
 	case "reflect.TypeOf":
 		use("reflect.TypeOf(i) is nil for a nil interface; otherwise a Type whose Kind() is kindOf(i) (only Kind() is used)")
@@ -442,7 +465,7 @@ func (fr *Frame) sortStable(in *ssa.Call, args []*GVal, stable bool) *GVal {
 		// termination: sort.Stable calls back into Less/Swap, whose measures must be below the caller's
 		for _, mname := range []string{"Less", "Swap"} {
 			cn := "(*" + tn + ")." + mname
-			if mc := p.cs.Funcs[cn]; mc != nil && p.sameSCC(ex.fname, cn) {
+			if mc := p.contractFor(ex.fname, cn); mc != nil && p.sameSCC(ex.fname, cn) {
 				mf := p.funcs[cn]
 				vars := map[string]*GVal{}
 				if mf != nil && len(mf.Params) > 0 {
@@ -507,7 +530,7 @@ func (fr *Frame) sortOrderFacts(tn string, ref *Term, stable bool, oldArr, n *Te
 	ex := fr.ex
 	p := ex.p
 	cn := "(*" + tn + ").Less"
-	mc := p.cs.Funcs[cn]
+	mc := p.contractFor(ex.fname, cn)
 	mf := p.funcs[cn]
 	if mc == nil || mf == nil || len(mf.Params) != 3 {
 		return
